@@ -680,6 +680,28 @@ static string do_resp(const vector<string> &a) {
     t = outline_trace(&dev, a[8], 0);
     return "t=" + t + ";a=" + sensors_dyn_s(dev.m_sensors) + ";id=" + (dev.m_identify_mode ? "1" : "0");
   }
+  if (kind == "advdimmer") {
+    AdvancedDimmerResponder dev(uid);
+    t = outline_trace(&dev, a[8], 0);
+    std::ostringstream o, pr;
+    o << (dev.m_identify_state ? 1 : 0) << "," << dev.m_start_address << "," << dev.m_lock_pin << "," << dev.m_maximum_level << ","
+      << static_cast<int>(dev.m_identify_mode) << "," << static_cast<int>(dev.m_burn_in) << "," << (dev.m_power_on_self_test ? 1 : 0)
+      << "," << static_cast<int>(dev.m_personality_manager.m_active_personality) << ","
+      << static_cast<int>(dev.m_curve_settings.m_current_setting) << "," << static_cast<int>(dev.m_response_time_settings.m_current_setting)
+      << "," << static_cast<int>(dev.m_lock_settings.m_current_setting) << "," << static_cast<int>(dev.m_frequency_settings.m_current_setting)
+      << "," << dev.m_preset_scene << "," << static_cast<int>(dev.m_preset_level) << "," << static_cast<int>(dev.m_preset_mergemode)
+      << "," << dev.m_min_level.min_level_increasing << "," << dev.m_min_level.min_level_decreasing << ","
+      << static_cast<int>(dev.m_min_level.on_below_min)
+      << "," << dev.m_fail_mode.scene << "," << dev.m_fail_mode.delay << "," << dev.m_fail_mode.hold_time << "," << static_cast<int>(dev.m_fail_mode.level)
+      << "," << dev.m_startup_mode.scene << "," << dev.m_startup_mode.delay << "," << dev.m_startup_mode.hold_time << ","
+      << static_cast<int>(dev.m_startup_mode.level);
+    for (size_t i = 0; i < dev.m_presets.size(); i++) {
+      if (i) pr << ",";
+      pr << dev.m_presets[i].fade_up_time << "," << dev.m_presets[i].fade_down_time << "," << dev.m_presets[i].wait_time << ","
+         << static_cast<int>(dev.m_presets[i].programmed);
+    }
+    return "t=" + t + ";a=" + o.str() + ";p=" + pr.str();
+  }
   if (kind == "dummy") {
     vector<string> in = vh::split(a[7], '|');
     g_fake_time = static_cast<time_t>(vh::num(vh::split(in[0], ',')[1]));
